@@ -42,7 +42,7 @@ add("C04", "exploration",
 
 add("C05", "exploration",
     "runtime monitoring: the C04 refinement engine driven by a multi-author, deletion-heavy generator with author-isolation classification; race detector",
-    "Histories of 2-4 authors with deletion requests in every arrival order; every step must be an allowed transition (a removal must be explained by the inserting author's own events or by eviction; suppressed events stay out while the request is retained; requests are served like regular events). Held on the steps counted in the evidence." + RACE,
+    "Histories of 2-4 authors with deletion requests in every arrival order; every step is judged by the retention relation and reported when it breaks a clause C05 states (a removal must be explained by the inserting author's own events or by eviction; what a request names goes and stays out while the request is retained, and no longer; requests are kept and served like regular events; removed events are gone for queries by id, author and tag too); steps that break only C04's clauses are counted and left to C04. Held on the steps counted in the evidence." + RACE,
     "Same trusted base as C04; a-tag references are exercised on addressable kinds only (as the property's quantifier says).",
     "DESIGN.md section 4, C05")
 
@@ -90,7 +90,7 @@ add("C11", "exploration",
 
 add("C17", "exploration",
     "runtime monitoring: per-limit predicate oracle over messages driven through the real concurrent middleware wrapper in front of a recording handler (sentinel-synchronised), stacks in seeded orders, NIP-11-built chains for all 128 limit subsets; race detector",
-    "Every client message of ~126k / 1.9M seeded messages sent through mw(recordingHandler).ServeNostr is judged against the statement's predicates: forwarded deep-equal and in order iff it respects every configured limit, otherwise exactly one OK(false,id)/CLOSED(sub id) and nothing forwarded, with all scripted server messages passing unchanged and in order; covers each of the 10 stateless limit middlewares at limit-1/limit/limit+1/far (timestamps up to the end of the int64 range, created_at limit value 0 included), stacks of 2-6, and BuildMiddlewareFromNIP11 for all 128 subsets of the seven limits and documents without a limitation block." + RACE,
+    "Every client message of ~126k / 1.9M seeded messages sent through mw(recordingHandler).ServeNostr is judged against the statement's predicates: forwarded deep-equal and in order iff it respects every configured limit, otherwise exactly one OK(false,id)/CLOSED(sub id) and nothing forwarded, with all scripted server messages passing unchanged and in order; covers each of the 10 stateless limit middlewares at limit-1/limit/limit+1/far (timestamps from the start to the end of the int64 range, created_at limit value 0 included), stacks of 2-6, and BuildMiddlewareFromNIP11 for all 128 subsets of the seven limits and documents without a limitation block." + RACE,
     "created_at verdicts keep 90 s from the moving boundary; byte-vs-rune length, over-long CLOSE ids and limit-violating AUTH events are not claimed; the position of max_subscriptions in the chain is left open (either order accepted).",
     "DESIGN.md section 4, C17")
 
@@ -127,7 +127,7 @@ add("C09", "exploration",
 add("C12", "exploration",
     "runtime monitoring: recording handler behind NewRelay + real WebSocket client (coder/websocket) with pipelined seeded frame sequences; frame-by-frame conservation oracle (admitted = valid authentic frames in order; one rejection per other frame; handler output intact and ordered); race detector",
     "Per connection 20-200 pipelined frames: valid messages of all five types, genuine hostile-content events, every C11 corruption class, non-messages, invalid UTF-8, binary frames, properly signed events with an invalid field, unsigned / altered-after-admission / wrong-canonicalisation / unparsable-key events; the handler log must equal the valid authentic frames once each in order, the client must get exactly one rejection per other frame, a sentinel REQ after the last frame must still get through, and every marked handler emission (all seven server message types, hostile strings) must arrive as one text frame decoding to the emitted value, in order; some sessions outlive the send timeout while their peer keeps reading. Held on the connections/frames counted in the evidence." + RACE,
-    "Frames stay within the configured size limit and rate limit (both raised); rejections are counted, not matched to frames (a NOTICE does not name its frame); reuses C11's generators and reference validator for what a frame denotes.",
+    "Frames stay within the configured size limit and rate limit (both raised); whether frames still on their way to the handler when the client's close frame arrives are handed over is counted, not judged (the handler's log must be a prefix of what was sent); inverted since/until windows are not claimed either way; rejections are counted, not matched to frames (a NOTICE does not name its frame); reuses C11's generators and reference validator for what a frame denotes.",
     "DESIGN.md section 4, C12")
 
 add("C13", "exploration",
